@@ -128,6 +128,19 @@ func (db *DB) DeleteChannels(chs []ChannelKey) (err error) {
 
 	// Do a pass first to remove all non-index channels
 	for _, ch := range chs {
+		if _, vok := db.mu.dbs.virtual[ch]; vok {
+			if err = db.removeChannel(ch); err != nil {
+				return
+			}
+			oldName := keyToDirName(ch)
+			newName := oldName + "-DELETE-" + strconv.Itoa(rand.Int())
+			if err = db.fs.Rename(oldName, newName); err != nil {
+				return
+			}
+			directoriesToRemove = append(directoriesToRemove, newName)
+			continue
+		}
+
 		udb, uok := db.mu.dbs.unary[ch]
 
 		if !uok || udb.Channel().IsIndex {
